@@ -25,7 +25,7 @@ def gen_cases(ck):
             tgt[rng.choice(['b', 'fl', 'when', 'tup', 'zset', 'ñ', '\U0001F600'])] = rng.choice(
                 [True, False, 2.0, 7.5, -3.5, datetime.datetime(2001, 2, 3, 4, 5, 6), (1, 'x', b'\xff'), {5}, [True, {'k': 1.0}], {'é': {'a': ()}},
                  [True, False], (1, False, b'p'), [b'raw', 7], [[True]], {'k': [False, 2]}, [2.0, 3], [datetime.datetime(2001, 2, 3, 4, 5, 6), 1], (), [[], [b'']]])
-        origin = rng.choice(['direct', 'direct', 'copy', 'reread', 'magnet-filled', 'edited'])
+        origin = rng.choice(['direct', 'direct', 'copy', 'reread', 'magnet-filled', 'edited', 'edited-nested'])
         out.append((md, origin))
     return out
 
@@ -45,6 +45,19 @@ def build(md, origin):
         t2 = m.torrent()
         t2._metainfo = copy.deepcopy(md)
         t = t2
+    elif origin == 'edited-nested':
+        # values below the top level of info are changed in place after the hash was asked for
+        t.metainfo['info']['x-nested'] = {'a': [1], 'b': {'c': 'd'}}
+        try:
+            _ = t.infohash, t.infohash_base32, t.magnet()
+        except torf.TorfError:
+            pass
+        info = t.metainfo['info']
+        info['x-nested']['a'].append(2)
+        info['x-nested']['b']['c'] = 'e'
+        for f in info.get('files', []) if isinstance(info.get('files'), list) else []:
+            if isinstance(f, dict) and isinstance(f.get('path'), list) and f['path'] and isinstance(f['path'][-1], str):
+                f['path'][-1] += '.renamed'
     elif origin == 'edited':
         _ = t.is_ready
         t.metainfo['info']['source'] = 'edited after first hash'
@@ -92,7 +105,7 @@ def check(t, root):
 def run(ck, model_ok):
     ck.rule = ('exportable metainfo (valid torrents + extra fields of every value type the converter accepts: str, bytes, int, bool, float, datetime, tuple, '
                'set, nested lists/dicts, non-ASCII keys) held by Torrent objects of different origins (direct, copy(), re-read, created by Magnet.torrent() and '
-               'later given an info section, edited after a first infohash); oracle: independent strict parser locates the info span in dump(), its sha1 == '
+               'later given an info section, edited after a first infohash at the top level of info or in place inside nested values); oracle: independent strict parser locates the info span in dump(), its sha1 == '
                'infohash == base32 == magnet hash, written file == dump(), dump() canonical; model: dump and hashed bytes compared; non-trivial = distinct cases')
     m = Model()
     pend = []
